@@ -54,6 +54,12 @@ def configs(tier):
                     yield dict(name="sub-%s-%s-%d+%d" % (be, meas, n1, n2), what="sub", backend=be, meas=meas, n1=n1, n2=n2,
                                fork=(meas == "spike"), validate=3, cost=30 * 6 ** (n1 + n2),
                                split_forks=(7 if n1 + n2 >= 3 else None))
+                    if meas != "spike" and (n1 + n2 <= 2 or (not q and be == "py")) and n1 + n2 >= 1:
+                        # the same with keyword settings: every keyword must reach the scalar route with an
+                        # interval exactly as it reaches the profile (interval x max_tau x MRTS)
+                        yield dict(name="subkw-%s-%s-%d+%d" % (be, meas, n1, n2), what="sub", backend=be, meas=meas,
+                                   n1=n1, n2=n2, kw=True, validate=3, cost=90 * 6 ** (n1 + n2),
+                                   split_forks=(7 if n1 + n2 >= 3 else None))
         # (a') three trains, MRTS='auto': the multivariate scalar (mean of pair values, pooled
         # threshold) must equal the average of the multivariate profile with the same keyword
         for ns in ((1, 1, 1), (1, 0, 1), (2, 1, 0)) + (((2, 1, 1), (2, 2, 0)) if not q else ()):
@@ -158,10 +164,15 @@ def sub(E, cfg):
     E.assume(w <= te)
     E.assume(u < w)
     iv = (u, w)
+    kw = {}
+    if cfg.get("kw"):
+        kw["MRTS"] = hx.param(E, "m", "pos")
+        if cfg["meas"] == "sync":
+            kw["max_tau"] = hx.param(E, "mt", "pos")
     with hx.quiet():
         if cfg["meas"] == "isi":
-            d = pyspike.isi_distance(a, b, interval=iv)
-            p = pyspike.isi_profile(a, b)
+            d = pyspike.isi_distance(a, b, interval=iv, **kw)
+            p = pyspike.isi_profile(a, b, **kw)
             E.observe("d", d)
             E.prove(E.eq(d, p.avrg(iv)), "isi_distance(interval) = isi_profile.avrg(interval)")
         elif cfg["meas"] == "spike":
@@ -170,8 +181,8 @@ def sub(E, cfg):
             E.observe("d", d)
             E.prove(E.eq(d, p.avrg(iv)), "spike_distance(interval) = spike_profile.avrg(interval)")
         else:
-            v = pyspike.spike_sync(a, b, interval=iv)
-            p = pyspike.spike_sync_profile(a, b)
+            v = pyspike.spike_sync(a, b, interval=iv, **kw)
+            p = pyspike.spike_sync_profile(a, b, **kw)
             E.observe("sync", v)
             E.prove(E.eq(v, p.avrg(iv)), "spike_sync(interval) = spike_sync_profile.avrg(interval)")
             # values / multiplicities of the events strictly inside, 1 if there is none
